@@ -28,7 +28,7 @@ CONSTANTS T,          \* number of caller threads
           FlushRounds,\* how many times the flusher repeats its program
           MaxBack     \* how many times a thread may take a backward epsilon edge (loop repetition)
 
-Prog(n) == ProgramOf(n)
+Prog(n) == IF n = "" THEN [ops |-> <<>>, eps |-> {}, spawn |-> {}] ELSE ProgramOf(n)      \* "" = no such thread
 
 Threads == 0..T
 Callers == 1..T
@@ -105,8 +105,14 @@ Again == /\ Active(0) /\ pc[0] = End(0) /\ rounds > 0
          /\ rounds' = rounds - 1 /\ pc' = [pc EXCEPT ![0] = 1] /\ back' = [back EXCEPT ![0] = 0]
          /\ UNCHANGED <<prog, wr, pw, rd>>
 
+\* (race model only: the facts then also hold "acc" steps = the accesses to fields of the shared structures made
+\* between two lock operations; for the lock model they are not extracted)
+Access(t) == /\ Cur(t).k = "acc"
+             /\ pc' = [pc EXCEPT ![t] = @ + 1]
+             /\ UNCHANGED <<prog, wr, pw, rd, back, rounds>>
+
 Step(t) == /\ Active(t)
-           /\ \/ (pc[t] < End(t) /\ (RLock(t) \/ RUnlock(t) \/ Announce(t) \/ Acquire(t) \/ Unlock(t)))
+           /\ \/ (pc[t] < End(t) /\ (RLock(t) \/ RUnlock(t) \/ Announce(t) \/ Acquire(t) \/ Unlock(t) \/ Access(t)))
               \/ Jump(t)
 
 AllDone == \A t \in Threads : Finished(t)
@@ -154,4 +160,25 @@ LockOrder == \A t \in Threads : AtAcq(t) => \A m \in Mutexes : Holds(t, m) => Ra
 
 \* every call returns (under weak fairness of every goroutine)
 Returns == \A t \in Callers : <>(pc[t] = End(t))
+
+-----------------------------------------------------------------------------
+(* The memory part of C08: data races.  With the race facts (tools/extract -race) TLC explores every program ALONE    *)
+(* (T = 1, Entries = every program) and collects, for every access to a field of a shared structure, the locks held  *)
+(* when it is made - exactly, for every path of the program.  Two accesses race when they touch the same location,   *)
+(* one of them writes, and their lock sets are compatible: no mutex held by both unless both hold it for reading     *)
+(* (sync.RWMutex; a sync.Mutex is always held "for writing").  Go's memory model gives no other ordering between     *)
+(* two calls on a handle.  RaceSet is printed by the postcondition RaceReport; what it contains is compared with     *)
+(* the justified baseline (init-before-publish writes, ...) and anything new must be confirmed by the race detector. *)
+Held(t) == {<<m, "w">> : m \in {x \in Mutexes : wr[x] = t}} \cup {<<m, "r">> : m \in {x \in Mutexes : rd[x][t] > 0}}
+Collect == \A t \in Threads : (Active(t) /\ pc[t] < End(t) /\ Cur(t).k = "acc") =>
+              TLCSet(7, TLCGet(7) \cup {<<a[1], a[2], Held(t), a[3], prog[t]>> : a \in Cur(t).a})
+Compatible(H1, H2) == \A x \in H1, y \in H2 : x[1] = y[1] => (x[2] = "r" /\ y[2] = "r")
+RaceSet ==
+  LET S == TLCGet(7)
+      P == {<<x[1], x[2], x[3]>> : x \in S}                       \* kind, location, locks held
+      R == {pq \in P \X P : pq[1][2] = pq[2][2] /\ pq[1][1] = "wr" /\ Compatible(pq[1][3], pq[2][3])}
+      W(p) == CHOOSE x \in S : <<x[1], x[2], x[3]>> = p
+  IN {[loc |-> pq[1][2], w_site |-> W(pq[1])[4], w_prog |-> W(pq[1])[5], w_held |-> pq[1][3],
+       o_kind |-> pq[2][1], o_site |-> W(pq[2])[4], o_prog |-> W(pq[2])[5], o_held |-> pq[2][3]] : pq \in R}
+RaceReport == PrintT(<<"RACESET", RaceSet>>)
 =============================================================================
